@@ -339,7 +339,7 @@ def col_sql(c):
 
 # queries that must be REJECTED (status 2, no row): a bracket closed by the other kind
 E2E_REJECT = ["lower{name) from R0", "lower(name} from R0", "substr{name, 1, 2) from R0", "name from R0 where (size > 1}", "name from R0 where {size > 1)"]
-E2E_BAD = ["name from 't[' depth 1 rx", "size, count(*) from R0 group by size limit 9", "name from R0 order by (size + 1) * 2, -size desc", "name from 'R0/(' rx", "name from R0 where name =~ '['", "name from R0 where name like '%['", "name from R0 where is_dir = maybe",
+E2E_BAD = ["name from 't[' depth 1 rx", "size, count(*) from R0 group by size limit 9", "name from R0 order by (size + 1) * 2, -size", "name from 'R0/(' rx", "name from R0 where name =~ '['", "name from R0 where name like '%['", "name from R0 where is_dir = maybe",
            "name from R0 where size = 'abc'", "name, substr(name, 'x') from R0", "name from R0 order by 7", "name from R0 limit x", "name from R0 into nope",
            "name from R0 where name = 'a' and", "name from R0 where (size > 1", "min(name), name from R0 group by", "name from R0 where size between 1"]
 
